@@ -11,16 +11,22 @@ PROPS["C15"] = {
     "modelled": "syntax/nullable.go (Nullable, isNullable), syntax/set.go (ResolveSets: rules with the LIFO queue and reachability from the first eoi input, oneRule.accept, "
                 "instantiate/translate incl. proxies and the visited map, the any/first/last/precede/follow queue, result extraction incl. inverse sets over [0,terms), "
                 "rewrite of set nonterminals) on top of the C25 model of util/set (Closure.compute, Tarjan)",
-    "partial": "sets_exact / self_complement_rejected / after_err are not Coq theorems (they need the least-solution theorem of the Tarjan closure, open in C25); proved: "
-               "isNullable exact for every rule body; the oracle tables nullable/first/last/any/follow/precede are exactly the inductive definitions (stability-checked Kleene iteration). "
-               "closed set expressions (union/intersection/complement without named sets) over plain rules are proved equal to the declarative set_den (C15_closed_sets_exact); "
-               "named (mutually recursive) sets and set nonterminals feeding back into first/last/any are in the naive-solver oracle without a proof; compiler.go afterErr wiring is covered by c15.tm only",
-    "level_text": "Universal Coq theorems: (1) the model of isNullable returns true exactly when the rule body denotes the empty string (all expression kinds the compiler builds); "
-                  "(2) the executable specification used as oracle computes exactly the inductive definitions nullable_in, first_in, last_in, any_in, follow_in, precede_in for every grammar whenever its stability check passes. "
-                  "Per run: the step-by-step model of ResolveSets equals the implementation on every case (terminals of every set, error sets), and the implementation's result equals "
+    "partial": "sets_exact against the declarative set_den is proved only up to the generated equation system: a SetsOk result is the unique least (stable) solution of the "
+               "system the model generated (C15_sets_least_solution_partial) and a SetsErr result lists exactly the generated complements on cycles (C15_self_complement_rejected), "
+               "under the executable certificate sets_certb evaluated on every case (node list well formed; check_scc / check_onstack accept the Tarjan output: Tarjan itself is not proved). "
+               "Not proved: that the demand-driven generation (instantiate / translate / process_key / queue_loop) builds the system whose least solution at (op, sym) is op_in op sym; "
+               "a declarative meaning for named (mutually recursive) sets and set nonterminals feeding back into first/last/any (naive-solver oracle only); termination of the slow loop within the model's fuel "
+               "(hypothesis c_oof = false, implied by a SetsOk result); the position of afterErr among the sets and compiler.go wiring are covered by c15.tm only",
+    "level_text": "Universal Coq theorems: (1) isNullable returns true exactly when the rule body denotes the empty string; (2) the oracle tables are exactly the inductive definitions nullable_in, first_in, last_in, "
+                  "any_in, follow_in, precede_in whenever the stability check passes; (3) the closure solver (Tarjan order, union branch, slow intersection branch, complements of solved components) returns the least "
+                  "solution: for every well-formed node list without a complement on a dependency cycle the computed values are the stable solution (= least solution of the equations with complement operands fixed), "
+                  "which satisfies every equation, is below every closed valuation and is unique; (4) the solver reports exactly the complement nodes that depend on themselves; (3) and (4) under the proved-sound "
+                  "Tarjan-contract certificate; (5) lifted through the model of ResolveSets: a result is the unique least solution of the generated system, an error lists exactly the generated self-dependent complements; "
+                  "(6) afterErr denotes follow(error) and IsRecovering iff it is non-empty (plain grammars). "
+                  "Per run: the step-by-step model of ResolveSets equals the implementation on every case, the certificate of (5) holds on every case, and the implementation's result equals "
                   "the naive stratified fixpoint of the eagerly generated declarative equation system (all five operators, union/intersection/complement, set nonterminals feeding back into "
                   "first/last/any, mutually recursive named sets), and the proved evaluation (tables + set algebra) for every closed expression over plain rules; also end to end through compiler.Compile (Grammar.Sets, afterErr, IsRecovering).",
-    "level_note": "Trusted: Coq kernel, extraction, glue; ClosureSpec.spec_solve (naive solver shared with C25) is not proved. A set nonterminal is never nullable in both model and "
+    "level_note": "Trusted: Coq kernel, extraction, glue; ClosureSpec.spec_solve (naive solver shared with C25) is not proved; the Tarjan model is certified per case (check_scc / check_onstack, proved sound), not proved. A set nonterminal is never nullable in both model and "
                   "specification (the implementation's %empty rule for an empty set is the C13 finding).",
     "technique": "Coq proof over a Gallina model + proved specification tables + extracted-model differential correspondence + naive fixpoint oracle, incl. .tm end to end",
     "assumptions": ["models are expanded (rules are flat) as ResolveSets requires", "complements have distinct Origins (true for compiled grammars)"],
